@@ -84,7 +84,7 @@ Proof.
   { destruct (padding >? 0) eqn:G in PS; apply pair_equal_spec in PS; destruct PS as [<- <-]; lia. }
   clear PS.
   destruct (match c_cmax c with Some m => psz + AEAD_TAG_SIZE >? m | None => false end) eqn:CE;
-    [inversion E; subst; congruence|].
+    [inversion E; subst; congruence|]. clear CE.
   destruct (p_start p + (psz + AEAD_TAG_SIZE) >? c_mds c) eqn:EE; [inversion E; subst; congruence|].
   assert (HG : (g_hasinit s || is_init) = true -> pad1 = true).
   { unfold pad1. intros G. apply orb_true_iff in G. destruct G as [G|G]; [rewrite (H2 G)|rewrite G, orb_true_r]; reflexivity. }
